@@ -173,7 +173,8 @@ pub struct Sweep {
 }
 
 /// Execute `n` generated whole-CLI cases of `prop` both ways, on `threads` threads.
-pub fn sweep(prop: &str, seed: u64, n: u64, stride: u64, threads: usize, dir: &str) -> Sweep {
+/// `first`: the runs 0..first are all taken (an enumerated prefix), then `n` more spread by `stride`.
+pub fn sweep(prop: &str, seed: u64, n: u64, stride: u64, threads: usize, dir: &str, first: u64) -> Sweep {
     let bin = match real_bin() {
         Some(b) => b,
         None => return Sweep { env_dependent: vec![], env_pairs: 0, proc_cases: 0, real_aborts: vec![], not_reproducible: vec![], sessions: 0, compared: 0, not_comparable: 0, mismatches: vec![] },
@@ -188,8 +189,8 @@ pub fn sweep(prop: &str, seed: u64, n: u64, stride: u64, threads: usize, dir: &s
             .spawn(move || {
                 let mut s = Sweep { env_dependent: vec![], env_pairs: 0, proc_cases: 0, real_aborts: vec![], not_reproducible: vec![], sessions: 0, compared: 0, not_comparable: 0, mismatches: vec![] };
                 let mut k = t as u64;
-                while k < n {
-                    let run = k * stride.max(1);
+                while k < first + n {
+                    let run = if k < first { k } else { first + (k - first) * stride.max(1) };
                     k += threads as u64;
                     let mut scratch = crate::runner::Stats::default();
                     let case = match crate::dispatch::make_case(&prop, seed, run, &mut scratch) {
